@@ -131,3 +131,15 @@ PROPS["C07"] = {
     "assumptions": ["equality with copies is checked for fresh copies (array Variants compare by payload identity)", "double values other than NaN", "no self-containment"],
     "parts": [opf("variant", ["harness/c07_variant.cpp"], {"cases": 600000, "maxsize": 30}, {"cases": 2000000, "maxsize": 80, "workers": 16})],
 }
+
+
+PROPS["C12"] = {
+    "level": "exploration",
+    "level_text": "random histories of connect / disconnect / emit / destroy / re-create over 3 emitters x 2 signals and 4 listeners x 2 slots per signal, where every slot invocation executes the next entry of a generated reaction script (connect, disconnect incl. itself, nested and recursive emit up to depth 3, delete a listener incl. the running one, delete an emitter incl. the emitting one); a model of connection records predicts the exact invocation sequence; probe emissions and a generated teardown order follow, under ASan and the allocation ledger",
+    "level_note": "trusted: the connection-record model in harness/c12_callback.cpp, the live-listener registry (a call on a destroyed listener is reported from the pointer value alone), ASan; two identical live connections are never created (the statement does not say which one a disconnect removes)",
+    "technique": "stateful property-based testing with a reaction script executed inside callbacks and an exact invocation-sequence model",
+    "rule": "opfuzz: 3..size top-level ops and 0..size reactions per case, concentrated on one signal so that slot chains get long. Oracle: each invocation must be the next connected record of the innermost running emission (connected before the outermost running emission of that signal began, still connected at its turn), no call on a destroyed listener or from a destroyed emitter, no connected record left uninvoked when an emission ends, probe emissions match, teardown in generated order is clean (ASan, ledger). "
+            "Non-trivial = (a reaction changed the connection set of the signal being emitted AND three emissions were nested) OR an emitter/listener was destroyed inside a slot; distinct by case text hash.",
+    "assumptions": ["no duplicate live connections", "an object that is both emitter and listener is not generated"],
+    "parts": [opf("callback", ["harness/c12_callback.cpp"], {"cases": 1500000, "maxsize": 30}, {"cases": 3000000, "maxsize": 80, "workers": 16})],
+}
